@@ -218,8 +218,11 @@ Fixpoint emit_sig_drivers (s w : nat) (n_drivers : nat) (ds : list drv) (db : li
   | [] => inl conns
   | (key, rs) :: rest =>
       let all := seq 0 w in
-      if Nat.eqb n_drivers 1 && forallb (fun b => negb (bmem (s, b) conns)) all then
-        (* sole driver, no instance-driven bit: the driver covers the whole signal *)
+      if Nat.eqb n_drivers 1 && existsb (fun r => 0 <? a_len r) rs
+         && forallb (fun b => negb (bmem (s, b) conns)) all then
+        (* sole driver that assigns at least one bit (`any(len(assign.value) ...)`, repo fix of
+           C06-zero-width-driver-vs-input-port), no instance-driven bit: the driver covers the whole signal;
+           a driver all of whose targets are zero-width takes the per-bit branch and connects nothing *)
         match connect (map (fun b => (s, b)) all) conns with
         | inl conns' => emit_sig_drivers s w n_drivers rest db conns'
         | inr e => inr e
